@@ -507,7 +507,15 @@ func ext۰reflect۰Value۰Set(fr *frame, args []value) value {
 func ext۰reflect۰valueInterface(fr *frame, args []value) value {
 	// Signature: func (v reflect.Value, safe bool) interface{}
 	v := args[0].(structure)
-	return iface{rV2T(v).t, rV2V(v)}
+	t, x := rV2T(v).t, rV2V(v)
+	if t != nil && types.IsInterface(t) {
+		// a Value of interface kind (e.g. an element of map[string]any): Interface() yields the
+		// dynamic value it holds, not an interface wrapped in an interface
+		if it, ok := x.(iface); ok {
+			return it
+		}
+	}
+	return iface{t, x}
 }
 
 func ext۰reflect۰error۰Error(fr *frame, args []value) value {
